@@ -826,7 +826,13 @@ func lockHeld(at ssa.Instruction) bool {
 
 // GlobalWriters lists, for every repository function, the package-level variables it stores to (directly or through an
 // address derived from the global) without holding a sync lock, excluding package initialisers.
-func GlobalWriters(g *Graph) map[*ssa.Function][]*ssa.Global {
+func GlobalWriters(g *Graph) map[*ssa.Function][]*ssa.Global { return globalWriters(g, false) }
+
+// GlobalStateWriters is GlobalWriters for rules about *state* rather than races: writes under a held lock count, and so do
+// the mutating methods of a package-level sync.Map (a cache is state whether or not it is synchronised).
+func GlobalStateWriters(g *Graph) map[*ssa.Function][]*ssa.Global { return globalWriters(g, true) }
+
+func globalWriters(g *Graph, state bool) map[*ssa.Function][]*ssa.Global {
 	out := map[*ssa.Function][]*ssa.Global{}
 	root := func(addr ssa.Value) *ssa.Global {
 		for i := 0; i < 16; i++ {
@@ -860,11 +866,23 @@ func GlobalWriters(g *Graph) map[*ssa.Function][]*ssa.Global {
 					addr = x.Addr
 				case *ssa.MapUpdate:
 					addr = x.Map
+				case ssa.CallInstruction:
+					if state {
+						if sc := x.Common().StaticCallee(); sc != nil && sc.Signature.Recv() != nil && len(x.Common().Args) > 0 {
+							rt := sc.Signature.Recv().Type().String()
+							if rt == "*sync.Map" {
+								switch sc.Name() {
+								case "Store", "LoadOrStore", "LoadAndDelete", "Delete", "Swap", "CompareAndSwap", "CompareAndDelete":
+									addr = x.Common().Args[0]
+								}
+							}
+						}
+					}
 				}
 				if addr == nil {
 					continue
 				}
-				if gl := root(addr); gl != nil && !seen[gl] && !lockHeld(in) {
+				if gl := root(addr); gl != nil && !seen[gl] && (state || !lockHeld(in)) {
 					seen[gl] = true
 					out[fn] = append(out[fn], gl)
 				}
